@@ -47,6 +47,19 @@ func H_C20_lockset() {
 	zz.Role("")
 	zz.FireTimer(0)
 	zz.Yield()
+	// the peer asks for everything sent so far (timer-produced messages included) and the
+	// timers expire once more afterwards
+	zz.Role("inbound dispatch")
+	rr := fixgen.CreateResendRequest(1, 0)
+	setHdr(rr.Header(), peer, me, 4)
+	_ = f.h.VerifServe(wire(rr))
+	zz.Role("")
+	zz.FireTimer(1)
+	zz.Yield()
+	zz.FireTimer(0)
+	zz.Yield()
+	zz.Role("inbound dispatch")
+	_ = f.h.VerifServe(b)
 	zz.Role("session stop")
 	_ = f.s.Stop()
 	zz.Role("inbound dispatch")
